@@ -261,7 +261,7 @@ func monitorOnce(cs *rtCase) []string {
 func runC03(c *Ctx) {
 	r := c.Res
 	r.Histogram = map[string]int{}
-	r.Rule = "same program supply and schedules as C02 (no injected failures, no crashes); each history is replayed in the Lean Sched model and monitored directly: no job key submitted twice; at completion every complete stage fork has executed exactly split?+chunks+join? jobs, every disabled fork none, fork names and index tuples are pairwise distinct; non-trivial = program has a mapped call or a disabled modifier or a splitting stage; distinct = (program, history) hash"
+	r.Rule = "same program supply and schedules as C02 (no injected failures, no crashes); each history is replayed in the Lean Sched model and monitored directly: no job key submitted twice; at completion every complete stage fork has executed exactly split?+chunks+join? jobs, every disabled fork none, fork names and index tuples are pairwise distinct; non-trivial = program has a mapped call or a disabled modifier or a splitting stage; distinct = (program, history) hash; plus the C01 program families (nested run-time-disabled pipelines, run-time split sources with null / empty / single elements, per-fork sibling flags) with the set of stage instances that ran compared against the instances denoted by the dataflow semantics den"
 	n := 120
 	if c.Thorough {
 		n = 2500
@@ -311,5 +311,11 @@ func runC03(c *Ctx) {
 				Input:  map[string]interface{}{"program": src, "spec": cs.spec.Name, "seed": cs.spec.Seed, "trace": res.Trace},
 				Broken: "correspondence Sched.replay"})
 		}
+	}
+	// independent oracle for "exactly one fork per index / key, disabled ones run
+	// nothing": the program families of C01 (harness/c01_family.go), the stage
+	// instances that ran compared with the instances the dataflow semantics denotes
+	for _, v := range c01InstanceViolations(c, "C03") {
+		r.violate(v)
 	}
 }
